@@ -1,1 +1,221 @@
 //! Verification facade: `pager` (feature `verif`).
+//!
+//! * [`VPager`]: a raw [`Pager`] on a scratch file whose `allocate_page` / `dealloc_page` are driven directly (as
+//!   `io/tests/pager.rs` does), returning the page ids the allocator hands out and the free-list header after each call.
+//! * [`database_roots`]: for an open [`Database`], the root page of every tree the catalog knows about (meta table,
+//!   meta index and one entry per physical row of the meta table), so that `verif::btree::dump_file` can be called on
+//!   the database file and the whole file can be audited for page ownership.
+use crate::{
+    DBConfig, Database,
+    io::{
+        disk::FileOperations,
+        pager::{Pager, SharedPager},
+    },
+    schema::{base::Relation, meta_table_schema},
+    storage::{
+        page::{BtreePage, OverflowPage},
+        tuple::{Tuple, TupleReader, TupleRef},
+    },
+    verif::btree::{FileDump, dump_file},
+};
+use std::{
+    io::{self, Write},
+    path::{Path, PathBuf},
+};
+
+/// Which page type the caller asks the pager for (`allocate_page::<P>` / `dealloc_page::<P>`).
+#[derive(Clone, Copy, Debug, PartialEq, Eq)]
+pub enum PKind {
+    Btree,
+    Overflow,
+}
+
+/// (first_free_page, last_free_page, total_pages) of the in-memory header; 0 = none.
+#[derive(Clone, Copy, Debug, PartialEq, Eq)]
+pub struct FreeHeader {
+    pub first: u64,
+    pub last: u64,
+    pub total: u64,
+}
+
+pub struct VPager {
+    path: PathBuf,
+    pager: Option<SharedPager>,
+}
+
+impl Drop for VPager {
+    fn drop(&mut self) {
+        self.pager = None;
+        let _ = std::fs::remove_file(&self.path);
+        if let Some(dir) = self.path.parent() {
+            let _ = std::fs::remove_file(dir.join("axmos.log"));
+        }
+    }
+}
+
+fn class(e: &io::Error) -> String {
+    format!("{:?}", e.kind())
+}
+
+impl VPager {
+    /// A fresh pager on `dir/pager.db` (the directory must exist and be private to this pager: `dir/axmos.log` is created too).
+    pub fn create(dir: &Path, page_size: usize, cache_pages: usize) -> io::Result<VPager> {
+        let path = dir.join("pager.db");
+        let _ = std::fs::remove_file(&path);
+        let _ = std::fs::remove_file(dir.join("axmos.log"));
+        let config = DBConfig { page_size, cache_size: cache_pages, pool_size: 1, num_siblings_per_side: 2, min_keys_per_page: 3 };
+        let pager: SharedPager = Pager::from_config(config, &path)?.into();
+        Ok(VPager { path, pager: Some(pager) })
+    }
+
+    fn p(&self) -> &SharedPager {
+        self.pager.as_ref().expect("pager closed")
+    }
+
+    pub fn shared(&self) -> SharedPager {
+        self.p().clone()
+    }
+
+    /// `Pager::allocate_page::<P>`; error = the `io::ErrorKind` name.
+    pub fn alloc(&mut self, kind: PKind) -> Result<u64, String> {
+        let r = match kind {
+            PKind::Btree => self.p().write().allocate_page::<BtreePage>(),
+            PKind::Overflow => self.p().write().allocate_page::<OverflowPage>(),
+        };
+        r.map_err(|e| class(&e))
+    }
+
+    /// `Pager::dealloc_page::<P>`.
+    pub fn dealloc(&mut self, id: u64, kind: PKind) -> Result<(), String> {
+        let r = match kind {
+            PKind::Btree => self.p().write().dealloc_page::<BtreePage>(id),
+            PKind::Overflow => self.p().write().dealloc_page::<OverflowPage>(id),
+        };
+        r.map_err(|e| class(&e))
+    }
+
+    /// Sets the `next` link of overflow page `id` exactly as `CellBuilder::build_cell` does while it builds a chain.
+    pub fn link(&mut self, id: u64, next: Option<u64>) -> Result<(), String> {
+        self.p()
+            .write()
+            .with_page_mut::<OverflowPage, _, _>(id, |p| {
+                p.metadata_mut().next = next;
+            })
+            .map_err(|e| class(&e))
+    }
+
+    pub fn header(&self) -> FreeHeader {
+        let (a, b, c, _) = self.p().read().verif_free_list_header();
+        FreeHeader { first: a.unwrap_or(0), last: b.unwrap_or(0), total: c }
+    }
+
+    /// `Pager::flush` (checkpoint: every dirty page and the header go to the file, the cache is emptied).
+    pub fn flush(&mut self) -> Result<(), String> {
+        self.p().write().flush().map_err(|e| class(&e))
+    }
+
+    /// flush, drop the pager, `Pager::open` on the same file.
+    pub fn reopen(&mut self) -> Result<(), String> {
+        self.flush()?;
+        self.pager = None;
+        let p = Pager::open(&self.path).map_err(|e| class(&e))?;
+        self.pager = Some(p.into());
+        Ok(())
+    }
+
+    /// Whole-file dump (no tree roots: every page that is not cached as a B-tree frame is read as an overflow/free page).
+    pub fn dump(&self) -> FileDump {
+        dump_file(self.p(), &[])
+    }
+}
+
+/// One tree of a database file.
+#[derive(Clone, Debug, PartialEq, Eq)]
+pub struct TreeRoot {
+    pub root: u64,
+    /// `meta_table`, `meta_index`, or the relation's name
+    pub name: String,
+    pub object_id: u64,
+    pub is_index: bool,
+    /// creator / deleter of the catalog row as stored (0 / None for the two catalog trees)
+    pub xmin: u64,
+    pub xmax: Option<u64>,
+    /// the header's aborted-transaction bitmap says the creator / deleter was rolled back
+    pub xmin_aborted: bool,
+    pub xmax_aborted: bool,
+}
+
+/// Roots of all trees of an open database: the meta table, the meta index, and one entry per *physical* row of the meta
+/// table (whatever its visibility: creator and deleter are reported so that the caller decides which rows count).
+/// Reads the meta table through an ordinary read-only tree iterator, as `Catalog::vacuum` does.
+pub fn database_roots(db: &Database) -> Result<Vec<TreeRoot>, String> {
+    let (meta_table, meta_index) = db.catalog().verif_meta_roots();
+    let mut out = vec![
+        TreeRoot {
+            root: meta_table,
+            name: "meta_table".into(),
+            object_id: 0,
+            is_index: false,
+            xmin: 0,
+            xmax: None,
+            xmin_aborted: false,
+            xmax_aborted: false,
+        },
+        TreeRoot {
+            root: meta_index,
+            name: "meta_index".into(),
+            object_id: 0,
+            is_index: true,
+            xmin: 0,
+            xmax: None,
+            xmin_aborted: false,
+            xmax_aborted: false,
+        },
+    ];
+    let pager = db.pager().clone();
+    let (min_keys, siblings) = {
+        let p = pager.read();
+        (p.min_keys_per_page(), p.num_siblings_per_side())
+    };
+    let builder = crate::io::pager::BtreeBuilder::new(min_keys, siblings).with_pager(pager.clone());
+    let schema = meta_table_schema();
+    let mut rows: Vec<(Relation, u64, Option<u64>)> = Vec::new();
+    {
+        let mut tree = builder.build_tree(meta_table);
+        if tree.is_empty().map_err(|e| format!("meta-table:{e}"))? {
+            return Ok(out);
+        }
+        let positions: Vec<_> = tree
+            .iter_forward()
+            .map_err(|e| format!("meta-table-iter:{e}"))?
+            .collect::<Result<Vec<_>, _>>()
+            .map_err(|e| format!("meta-table-iter:{e}"))?;
+        for pos in positions {
+            let r = tree
+                .with_cell_at(pos, |bytes| -> Result<(Relation, u64, Option<u64>), String> {
+                    let tuple = Tuple::from_slice_unchecked(bytes).map_err(|e| format!("tuple:{e}"))?;
+                    let reader = TupleReader::from_schema(&schema);
+                    let layout = reader.parse_last_version(bytes).map_err(|e| format!("layout:{e}"))?;
+                    let row = TupleRef::new(bytes, layout).to_row_with(&schema).map_err(|e| format!("row:{e}"))?;
+                    Ok((Relation::from_meta_table_row(row), tuple.xmin(), tuple.xmax()))
+                })
+                .map_err(|e| format!("meta-table-cell:{e}"))??;
+            rows.push(r);
+        }
+    }
+    let p = pager.read();
+    let h = p.header_unchecked();
+    for (rel, xmin, xmax) in rows {
+        out.push(TreeRoot {
+            root: rel.root(),
+            name: rel.name().to_string(),
+            object_id: rel.object_id(),
+            is_index: rel.is_index(),
+            xmin,
+            xmax,
+            xmin_aborted: h.is_transaction_aborted(xmin),
+            xmax_aborted: xmax.map(|x| h.is_transaction_aborted(x)).unwrap_or(false),
+        });
+    }
+    Ok(out)
+}
